@@ -762,6 +762,64 @@ def bounds_sound(F, R, tier="quick"):
                     wk, wa = written[nm]
                     if len(wa) == 2 and ((wa[0] != -INF and v_ < Fr(wa[0]) - tol_x) or (wa[1] != INF and v_ > Fr(wa[1]) + tol_x)):
                         bad.setdefault(("domain", "inexact:" + label), "%s: the feasible point x=%s, y=%s is outside the domain written back for %s: %s(%r, %r)" % (label, a, b, nm, wk, wa[0], wa[1]))
+    # wide rows: four to six variables in one affine row (the contribution of *all* the other terms decides how far one
+    # variable can be tightened), every relation, mixed signs, integer ranges; soundness on the corner/middle grid of the box
+    def lin(names, coeffs):
+        e = None
+        for nm, c in zip(names, coeffs):
+            t = var(nm) if c == 1.0 else (neg(var(nm)) if c == -1.0 else bop("Mul", num(c), var(nm)))
+            e = t if e is None else bop("Add", e, t)
+        return e
+    NM = ["a", "b", "c", "d", "e", "f"]
+    wide = [("a+b+c+d>=10 | [0,4]^4", 4, ("Real", 0.0, 4.0), [([1.0, 1.0, 1.0, 1.0], "GreaterOrEqual", 10.0)]),
+            ("a+b+c+d+e=3 | {0,1}^5", 5, ("IntegerRange", 0, 1), [([1.0, 1.0, 1.0, 1.0, 1.0], "Equal", 3.0)]),
+            ("a-b+2c-d>=5 | [-2,3]^4", 4, ("Real", -2.0, 3.0), [([1.0, -1.0, 2.0, -1.0], "GreaterOrEqual", 5.0)]),
+            ("a+b+c+d<=2 | [-1,4]^4", 4, ("Real", -1.0, 4.0), [([1.0, 1.0, 1.0, 1.0], "LessOrEqual", 2.0)]),
+            ("2a-b-c+d-e=1 | [-2,2]^5", 5, ("Real", -2.0, 2.0), [([2.0, -1.0, -1.0, 1.0, -1.0], "Equal", 1.0)]),
+            ("a+b+c+d+e+f>=20 | [0,4]^6", 6, ("NonNegativeReal", 0.0, 4.0), [([1.0, 1.0, 1.0, 1.0, 1.0, 1.0], "GreaterOrEqual", 20.0)]),
+            ("-a-b-c-d>=-3 | [0,2]^4", 4, ("NonNegativeReal", 0.0, 2.0), [([-1.0, -1.0, -1.0, -1.0], "GreaterOrEqual", -3.0)]),
+            ("a+b+c+d>=6 ; a-d<=1 | [0,3]^4", 4, ("Real", 0.0, 3.0), [([1.0, 1.0, 1.0, 1.0], "GreaterOrEqual", 6.0), ([1.0, 0.0, 0.0, -1.0], "LessOrEqual", 1.0)]),
+            ("0.5a+1.5b-c+d+2e<=-4 | int [-3,3]^5", 5, ("IntegerRange", -3, 3), [([0.5, 1.5, -1.0, 1.0, 2.0], "LessOrEqual", -4.0)]),
+            ("a+b+c+d=0 | [-1,1]^4", 4, ("Real", -1.0, 1.0), [([1.0, 1.0, 1.0, 1.0], "Equal", 0.0)]),
+            ("3a+b+c+d+e>=9 | [0,2]^5", 5, ("Real", 0.0, 2.0), [([3.0, 1.0, 1.0, 1.0, 1.0], "GreaterOrEqual", 9.0)])]
+    for label, nv, d, rows in wide:
+        names = NM[:nv]
+        dom = LV([(nm, c12rt.dv(V(VT + "::" + d[0], list(d[1:])))) for nm in names])
+        cs = []
+        for coeffs, rl, c in rows:
+            used = [(nm, k_) for nm, k_ in zip(names, coeffs) if k_ != 0.0]
+            cs.append((lin([u[0] for u in used], [u[1] for u in used]), rl, c, coeffs))
+        r = I.call_fn(fn, [dom, LV([con(e, rl, c) for e, rl, c, _ in cs])])
+        n_models += 1
+        g = "wide:" + label.split(" |")[0]
+        if is_unknown(r) or not isinstance(r, V) or "variable_bounds" not in r.fields:
+            bad.setdefault(("eval", g), "%s: analysis not evaluable: %r" % (label, r))
+            continue
+        vb = {(k_.text() if isinstance(k_, Rp) else k_): (b_.fields["lower"], b_.fields["upper"]) for k_, b_ in r.fields["variable_bounds"].items}
+        r2 = I.call_fn(ap, [r, dom])
+        if is_unknown(r2):
+            bad.setdefault(("eval", g), "%s: apply_to_domain not evaluable: %r" % (label, r2))
+            continue
+        written = {}
+        for k_, d_ in dom.items:
+            t_ = d_.fields["as_type"]
+            written[k_] = (t_.path.rsplit("::", 1)[-1], t_.args)
+        lo_, hi_ = Fr(d[1]), Fr(d[2])
+        axis = [Fr(i) for i in range(int(d[1]), int(d[2]) + 1)] if d[0] == "IntegerRange" and d[2] - d[1] <= 2 else ([lo_, hi_, Fr(int((lo_ + hi_) / 2))] if d[0] == "IntegerRange" else [lo_, hi_, (lo_ + hi_) / 2])
+        seen = False
+        for pt in it.product(sorted(set(axis)), repeat=nv):
+            if not all(relf[rl](sum(Fr(k_) * v_ for k_, v_ in zip(coeffs, pt)), Fr(c)) for _, rl, c, coeffs in cs):
+                continue
+            seen = True
+            for nm, v_ in zip(names, pt):
+                lo, hi = vb.get(nm, (-INF, INF))
+                if (lo != -INF and v_ < Fr(lo) - tol) or (hi != INF and v_ > Fr(hi) + tol):
+                    bad.setdefault(("unsound", g), "%s: the feasible point %s is outside the derived range of %s [%r, %r]" % (label, dict(zip(names, map(str, pt))), nm, lo, hi))
+                wk, wa = written[nm]
+                if wk != "Boolean" and len(wa) == 2 and ((wa[0] != -INF and v_ < Fr(wa[0]) - tol) or (wa[1] != INF and v_ > Fr(wa[1]) + tol)):
+                    bad.setdefault(("domain", g), "%s: the feasible point %s is outside the domain written back for %s: %s(%r, %r)" % (label, dict(zip(names, map(str, pt))), nm, wk, wa[0], wa[1]))
+        if r.fields.get("detected_infeasible") is True and seen:
+            bad.setdefault(("flag", g), "%s: flagged infeasible although a grid point is feasible" % label)
     R.count("BOUNDS-SOUND.models", n_models)
     R.count("BOUNDS-SOUND.constraints", len(cons))
     for stage, text_ in (("eval", "the analysis is evaluable on every model"), ("nan", "no NaN bound"), ("unsound", "every feasible grid point is inside the derived ranges"), ("domain", "every feasible grid point is inside the domains written back"), ("flag", "the infeasibility flag is never raised on a feasible model")):
